@@ -91,7 +91,7 @@ def build(case, base, order_seed):
     for rel, text in items:
         p = forest.abspath(root, out, rel)
         os.makedirs(os.path.dirname(p), exist_ok=True)
-        with open(p, "w") as f:
+        with open(p, "w", encoding="latin-1", newline="") as f:
             f.write(text)
     for d in forest.INC_DIRS + ["src"]:
         os.makedirs(os.path.join(root, d), exist_ok=True)
